@@ -2,13 +2,14 @@ import random, sys, json
 from fractions import Fraction
 rnd = random.Random(int(sys.argv[1]))
 N = int(sys.argv[2])
-KEYS = ['a','b','c','ab','a b',"a'b",'a"b','','0','1','é','☺',"'a'",'a/b','a~b','\\','x\ty',' a','a ', '\x7f', 'a\x7fb', '"a"']
+KEYS = ['[?', 'why[?]', '[?@.x]', 'a..b', '[*]', 'a,b', 'a:b', '$', '@', 'a]', '[', ']', '*', '..', 'a.b', '(a)', '!a', 'a&&b', 'a==b', '#', '?'] + ['a','b','c','ab','a b',"a'b",'a"b','','0','1','é','☺',"'a'",'a/b','a~b','\\','x\ty',' a','a ', '\x7f', 'a\x7fb', '"a"']
+PLAIN8 = ['a','b','c','ab','a b',"a'b",'a"b','']
 SCAL = [None, True, False, 0, 1, -1, 2, 3, 10, 1.0, 0.5, -0.5, 2.0, 1.5, 100.0, 2.0**-60, 0.0, '', 'a', 'b', 'ab', 'é', '𝄞', 'A', 'a b', '1']
 def doc(depth=0):
     r = rnd.random()
     if depth >= 3 or r < 0.35: return rnd.choice(SCAL)
     if r < 0.68: return [doc(depth+1) for _ in range(rnd.choice([0,1,2,2,3,4]))]
-    ks = rnd.sample(KEYS[:8] if rnd.random()<0.8 else KEYS, rnd.choice([0,1,2,2,3]))
+    ks = rnd.sample(PLAIN8 if rnd.random()<0.8 else KEYS, rnd.choice([0,1,2,2,3]))
     return {k: doc(depth+1) for k in ks}
 def tag(v):
     if v is None: return None
